@@ -11,7 +11,8 @@ using namespace pbt;
 using xmlref::Node;
 
 namespace {
-const char* const NAMES[] = {"a", "b", "item", "x1", "_n", "A.b-c", "node_2", "t"};
+const char* const NAMES[] = {"a", "b", "item", "x1", "_n", "A.b-c", "node_2", "t", "gr\xc3\xb6\xc3\x9f" "e", "\xe5\x90\x8d\xe5\x89\x8d", "\xce\xb1\xce\xb2" "1", "ns:el"};   // well-formed names, also with letters outside ASCII
+const int NN = 12;
 const char* const VALS[] = {"", "v", "two words", "q\"uote", "ap'os", "a&b", "<tag>", "&amp;", "&#65;", "line\nbreak", "cr\rlf\r\n", "tab\there", "\xc3\xa4\xe2\x82\xac", "\xf0\x9f\x98\x80 \xf4\x8f\xbf\xbf", "\x01\x1f", "a=b/c", "&lt", "x;y", " lead", "trail ", "--", "]]>"};
 const char* const TEXTS[] = {"x", "hello world", " padded ", "a&b", "1<2", "2>1", "\"q\"", "it's", "line\nbreak", "\xc3\xb6", "smile \xf0\x9f\x98\x80", "&amp;", "&#66;", "a;b", "=", "/", "-->", "<!--", "x\r\ny", "/>", "?>"};
 
@@ -86,9 +87,9 @@ void pbt_warmup() { Xml::Element e; Xml::parse("<a b=\"c\">x<d/></a>", e); (void
 void pbt_generate(Rng& r, int size, Case& c) {
   int n = 1 + (int)r.below((uint64_t)size + 1);
   bool deep = r.chance(2);
-  if (deep) { int d = 50 + (int)r.below(r.chance(10) ? 950 : 250); for (int k = 0; k < d; ++k) c.add("open", (long)r.below(8)); c.add("text", (long)r.below(20)); c.params["deco"] = (long)r.below(1 << 30); return; }
+  if (deep) { int d = 50 + (int)r.below(r.chance(10) ? 950 : 250); for (int k = 0; k < d; ++k) c.add("open", (long)r.below(12)); c.add("text", (long)r.below(20)); c.params["deco"] = (long)r.below(1 << 30); return; }
   // wide documents: a thousand and more siblings without content under a few levels (nesting depth is bounded, breadth is not)
-  if (r.chance(1)) { int lv = (int)r.below(4); for (int k = 0; k < lv; ++k) c.add("open", (long)r.below(8)); c.add("empties", 900 + (long)r.below(1800), (long)r.below(8)); c.add("open", (long)r.below(8)); c.add("text", (long)r.below(20)); c.params["deco"] = (long)r.below(1 << 30); return; }
+  if (r.chance(1)) { int lv = (int)r.below(4); for (int k = 0; k < lv; ++k) c.add("open", (long)r.below(12)); c.add("empties", 900 + (long)r.below(1800), (long)r.below(12)); c.add("open", (long)r.below(12)); c.add("text", (long)r.below(20)); c.params["deco"] = (long)r.below(1 << 30); return; }
   static const char* names[] = {"open", "attr", "text", "close", "v_elem", "v_text", "v_copy", "v_assign", "v_mutate", "v_clear"};
   static const int w[] = {14, 16, 12, 12, 2, 2, 3, 3, 4, 1};
   for (int k = 0; k < n; ++k) {
@@ -98,7 +99,7 @@ void pbt_generate(Rng& r, int size, Case& c) {
       if (r.chance(70)) d = o == 2 ? TEXTS[r.below(sizeof TEXTS / sizeof *TEXTS)] : VALS[r.below(sizeof VALS / sizeof *VALS)];
       else { int len = 1 + (int)r.below(6); for (int q = 0; q < len; ++q) { static const char al[] = "ab <>&\"';=/-!?#\n\r\t1"; d += al[r.below(sizeof al - 1)]; } }
     }
-    c.add(names[o], (long)r.below(8), (long)r.below(3), (long)r.below(3), (long)r.below(100), d);
+    c.add(names[o], (long)r.below(12), (long)r.below(3), (long)r.below(3), (long)r.below(100), d);
   }
   c.params["deco"] = (long)r.below(1 << 30);
 }
@@ -123,12 +124,12 @@ void pbt_run(const Case& cs, Ctx& ctx) {
   for (const Op& op : cs.ops) {
     ctx.opIndex = idx++;
     const std::string& nm = op.name; std::string d = op.data; for (auto& ch : d) if (!ch) ch = '0';
-    if (nm == "open") { Node* p = resolve(open.back()); Node c; c.name = NAMES[((op.a[0] % 8) + 8) % 8]; p->kids.push_back(c); std::vector<size_t> pth = open.back(); pth.push_back(p->kids.size() - 1); open.push_back(pth); if ((int)open.size() - 1 > maxDepth) maxDepth = (int)open.size() - 1; }
+    if (nm == "open") { Node* p = resolve(open.back()); Node c; c.name = NAMES[((op.a[0] % NN) + NN) % NN]; p->kids.push_back(c); std::vector<size_t> pth = open.back(); pth.push_back(p->kids.size() - 1); open.push_back(pth); if ((int)open.size() - 1 > maxDepth) maxDepth = (int)open.size() - 1; }
     else if (nm == "close") { if (open.size() > 1) open.pop_back(); }
-    else if (nm == "empties") { Node* p = resolve(open.back()); long cnt = std::max(0L, std::min(3000L, op.a[0])); Node c; c.name = NAMES[((op.a[1] % 8) + 8) % 8]; for (long q = 0; q < cnt; ++q) p->kids.push_back(c); if (cnt >= 1000) ctx.label("siblings>=1000"); }
+    else if (nm == "empties") { Node* p = resolve(open.back()); long cnt = std::max(0L, std::min(3000L, op.a[0])); Node c; c.name = NAMES[((op.a[1] % NN) + NN) % NN]; for (long q = 0; q < cnt; ++q) p->kids.push_back(c); if (cnt >= 1000) ctx.label("siblings>=1000"); }
     else if (nm == "attr") {
       Node* p = resolve(open.back()); if (!p->kids.empty()) { ctx.count("skipped"); continue; }  // attributes are given before content (keeps the model simple)
-      std::string an = std::string(NAMES[((op.a[0] % 8) + 8) % 8]) + (op.a[1] ? std::to_string(op.a[1]) : "");
+      std::string an = std::string(NAMES[((op.a[0] % NN) + NN) % NN]) + (op.a[1] ? std::to_string(op.a[1]) : "");
       bool dup = false; for (auto& a : p->attrs) if (a.first == an) dup = true;
       if (dup || p->attrs.size() >= 4) { ctx.count("skipped"); continue; }
       p->attrs.emplace_back(an, d);
@@ -141,7 +142,7 @@ void pbt_run(const Case& cs, Ctx& ctx) {
     }
     else if (nm.compare(0, 2, "v_") == 0) {
       int i = (int)(((op.a[1] % 3) + 3) % 3), j = (int)(((op.a[2] % 3) + 3) % 3);
-      if (nm == "v_elem") { Node e; e.name = NAMES[((op.a[0] % 8) + 8) % 8]; e.attrs.emplace_back("k", d); *xv[i] = Xml::Variant(xmlref::build(e)); xm[i].t = 1; xm[i].el = e; xm[i].text.clear(); }
+      if (nm == "v_elem") { Node e; e.name = NAMES[((op.a[0] % NN) + NN) % NN]; e.attrs.emplace_back("k", d); *xv[i] = Xml::Variant(xmlref::build(e)); xm[i].t = 1; xm[i].el = e; xm[i].text.clear(); }
       else if (nm == "v_text") { *xv[i] = String(d.data(), d.size()); xm[i].t = 2; xm[i].text = d; }
       else if (nm == "v_copy") { if (i == j) { ctx.count("skipped"); continue; } delete xv[i]; xv[i] = new Xml::Variant(*xv[j]); xm[i] = xm[j]; ctx.label("variant_copy"); }
       else if (nm == "v_assign") { *xv[i] = *xv[j]; xm[i] = xm[j]; ctx.label("variant_copy"); }
